@@ -176,13 +176,6 @@ func genCase(r *vh.Rand) string {
 				fmtMap(pm.NonVotings), fmtMap(pm.Witnesses), fmtSet(pm.Removed)))
 			m.Set(pm)
 			continue
-		case k < 8:
-			a, b := genAddr(r), genAddr(r)
-			if r.Bool() {
-				b = variant(r, a)
-			}
-			ops = append(ops, fmt.Sprintf("eq %s %s", vh.Hex([]byte(a)), vh.Hex([]byte(b))))
-			continue
 		}
 		cc := pb.ConfigChange{Type: pb.ConfigChangeType(genType(r)), ReplicaID: genID(r), Address: genAddr(r)}
 		// targeted shapes
